@@ -636,6 +636,20 @@ theorem C11_declare_option_words :
   | cons a rest ih =>
     simp only [List.flatMap_cons, splitEq_noSpace (h a (by simp)), ih (fun x hx => h x (by simp [hx]))]
 
+/-- **C11_declare_options_written.**  The docstring's example in general: a `declareOptions` command whose arguments
+are options `k = v`, each written in any of the four unquoted styles (`k=v`, `k = v`, `k =v`, `k= v`; keys and values
+non-empty, without `=` and white space), declares exactly the pairs written, in order — `getDeclareOptions` folds
+them into its dictionary, a later pair replacing an earlier one with the same key. -/
+theorem C11_declare_options_written (os : List (Str × Str × OptStyle))
+    (h : ∀ o ∈ os, optWord o.1 = true ∧ optWord o.2.1 = true) (d : Dict) :
+    blockOpts d [⟨Cmd.declareOptions.name, os.flatMap fun o => optArgs o.1 o.2.1 o.2.2, .none⟩]
+      = (os.map fun o => (o.1, o.2.1)).foldl (fun o p => dictSet o p.1 p.2) d := by
+  simp [blockOpts, pairUp_written os h]
+
+example : optArgs (Str.ofString "flavor") (Str.ofString "NULL") .joined ++ optArgs (Str.ofString "name") (Str.ofString "foo") .spaced
+    = [Str.ofString "flavor=NULL", Str.ofString "name", [61], Str.ofString "foo"] ∧
+    optWord (Str.ofString "flavor") = true ∧ optWord (Str.ofString "1.2") = true := by decide
+
 /-! ### non-vacuity -/
 
 /-- `declareOptions(flavor=NULL, name = foo, "x_y  =1.2", flavor= Linux, version)` as tokenised -/
@@ -689,6 +703,19 @@ theorem C11_setup_type_option (valid : List Str) (first : Str) (rest : List (Str
        let ts := if exactOpt && !words.contains sExact then words ++ [sExact] else words
        if words.all (fun t => valid.contains t) then some (ts, ts.contains sExact) else none) := by
   simp only [normTypes, setupArg, argTypes_words first rest hf hr]
+
+open EupsModel.SetupType in
+/-- **C11_setup_type_cmd_option.**  `eups <cmd> -T "<words>"` (`cmd.py` passes `str.split()` of the option): words
+separated by runs of white space, with or without white space before the first and after the last, name exactly those
+words (a comma is part of a word on this path). -/
+theorem C11_setup_type_cmd_option (valid : List Str) (pad1 first : Str) (rest : List (Str × Str)) (pad2 : Str)
+    (exactOpt : Bool) (h1 : pad1.all Str.isSpace = true) (hf : wsWord first = true)
+    (hr : ∀ p ∈ rest, wsSep p.1 = true ∧ wsWord p.2 = true) (h2 : pad2.all Str.isSpace = true) :
+    normTypes valid (cmdArg (pad1 ++ first ++ (rest.flatMap fun p => p.1 ++ p.2) ++ pad2)) exactOpt =
+      (let words := first :: rest.map (·.2)
+       let ts := if exactOpt && !words.contains sExact then words ++ [sExact] else words
+       if words.all (fun t => valid.contains t) then some (ts, ts.contains sExact) else none) := by
+  simp only [cmdArg_words pad1 first rest pad2 h1 hf hr h2, normTypes, argTypes]
 
 open EupsModel.SetupType in
 /-- **C11_dependencies_types.**  `Table.dependencies` reads the table for the same types when it follows exact
